@@ -72,8 +72,9 @@ def gen_trace(recipe):
   else:
     Xq = rng.normal(size=(nq, d)) * (10.0 ** rng.integers(-3, 4))
   Xq[1] = Xq[0]
-  if recipe['qkind'] == 'random':
-    pass
+  if recipe['qkind'] != 'integer':
+    # a NEAR duplicate (distinct points agreeing to ~6 digits): its distance is small, not zero
+    Xq[5] = Xq[4] * (1.0 + 2.0 ** -19) + 2.0 ** -30
   store = np.vstack([Xtr, Xq])
   off = len(Xtr)
   prep = store if recipe['prep'] == 'array' else (lambda idx, _s=store: _s[np.asarray(idx, dtype=int)])
